@@ -507,6 +507,17 @@ func propC06(t *rapid.T, e *Env) {
 	cut, rem := c2.removeTypes(rc.B, rc.Type, 0)
 	clean := toEmpty(t, e, rc, x, "a generated value")
 	target := types.Object{AttrTypes: cut.AttrTypes}
+	if rem != nil && len(rem.removed) > 0 && rapid.Bool().Draw(t, "stalevalues") {
+		// the values of an earlier state are still stored under the keys whose types were removed at the top level:
+		// the missing type is reported all the same (nothing is derived from a stored value)
+		target.Attrs = map[string]attr.Value{}
+		co := clean.Object()
+		for k := range rem.removed {
+			if v, ok := co.Attrs[k]; ok {
+				target.Attrs[k] = v
+			}
+		}
+	}
 	d, p = rc.CopyTo(x, &target)
 	if p != "" {
 		e.Fail(t, "C06 Copy%sToTerraform panicked on a target with missing attribute types: %s; source %s; removed %s", rc.M.Name, p, describe(rc, x), remString(rem))
